@@ -8,21 +8,22 @@ import (
 
 // Profile biases configuration and operation generation towards what a property needs.
 type Profile struct {
-	Prop       string
-	ForceBound string // "", none, size, weight
-	ForceExp   bool
-	NoExp      bool
-	ForceRef   bool
-	NoRef      bool
-	Executor   []string
-	Stats      bool
-	ExtremeClk bool // C12: clock origins / durations near MaxInt64
-	BigTTL     bool // C13: TTLs from ns to years
-	OpW        map[string]int
-	MinOps     int
-	MaxOps     int
-	Keys       [2]int
-	NoPanic    bool
+	Prop        string
+	ForceBound  string // "", none, size, weight
+	ForceExp    bool
+	NoExp       bool
+	ForceRef    bool
+	NoRef       bool
+	Executor    []string
+	Stats       bool
+	ExtremeClk  bool // C12: clock origins / durations near MaxInt64
+	BigTTL      bool // C13: TTLs from ns to years
+	OpW         map[string]int
+	MinOps      int
+	MaxOps      int
+	Keys        [2]int
+	NoPanic     bool
+	NoCustomExp bool // only the built-in expiry policies (reads never shorten a deadline)
 }
 
 func logUniform(r *simrt.Rng, lo, hi int64) int64 {
@@ -105,6 +106,9 @@ func GenCfg(r *simrt.Rng, p *Profile) Cfg {
 	exp := "none"
 	if !p.NoExp && (p.ForceExp || r.Intn(3) != 0) {
 		exp = []string{"creating", "writing", "accessing", "custom", "custom"}[r.Intn(5)]
+		if p.NoCustomExp && exp == "custom" {
+			exp = []string{"creating", "writing", "accessing"}[r.Intn(3)]
+		}
 	}
 	c.Expiry = exp
 	if exp != "none" {
